@@ -39,7 +39,7 @@ def ruleOf (i : Input) (g : GName) : String :=
       else "auto:keep"
 
 def branchTags (i : Input) (out : List GName) : List String :=
-  let cov := i.order.filter (inGs i.glyphSet)
+  let cov := i.order.filter (renames i)
   let t1 := cov.map (ruleOf i)
   let t2 := cov.filterMap (fun g =>
     if (clean (specProd i g)).length > 63 then some "long63:fallback" else none)
